@@ -134,6 +134,7 @@ class Engine:
     def __init__(self, module: Module, repo: str):
         self.m = module
         self.repo = repo
+        module.load_exception_classes(repo)
         S.TStrC.mode = module.strings
         self.class_ids = {c: i + 1 for i, c in enumerate(module.classes)}
         self.dyntype = z3.Function("dyntype", S.RefS, z3.IntSort())
